@@ -38,7 +38,8 @@ type c11Scenario struct {
 	Multi     bool        `json:"multi"`
 	LL        bool        `json:"ll"`
 	SkipUntil bool        `json:"skip_until"`
-	Streams   []c11Stream `json:"streams"` // [0] = leading
+	SubDirs   bool        `json:"sub_dirs"` // multivariant: variant and rendition playlists live in sub-directories
+	Streams   []c11Stream `json:"streams"`  // [0] = leading
 }
 
 func drawHistory(t *rapid.T, total int, ll bool, label string) c11Stream {
@@ -122,6 +123,7 @@ func drawC11(t *rapid.T) c11Scenario {
 		sc.Range = "none"
 	}
 	sc.Multi = sc.Container == "fmp4" && !sc.LL && rapid.IntRange(0, 2).Draw(t, "multi") == 0
+	sc.SubDirs = sc.Multi && rapid.Bool().Draw(t, "subdirs")
 	sc.Streams = append(sc.Streams, drawHistory(t, sc.Total, sc.LL, "L"))
 	if sc.Multi {
 		nr := rapid.IntRange(1, 2).Draw(t, "nrend")
@@ -275,8 +277,17 @@ func execC11(sc c11Scenario) core.Outcome {
 		files map[string]bool
 	}
 	var infos []plInfo
+	plDir := func(pi int) string {
+		if !sc.SubDirs {
+			return ""
+		}
+		if pi == 0 {
+			return "video/main/"
+		}
+		return fmt.Sprintf("audio/r%d/", pi)
+	}
 	for pi, bp := range all {
-		plURL := base + bp.Path
+		plURL := base + plDir(pi) + bp.Path
 		// register files under their resolved paths and rewrite the URIs of the playlist
 		newURIs := make([]string, len(bp.SegURIs))
 		for i, u := range bp.SegURIs {
@@ -345,10 +356,16 @@ func execC11(sc c11Scenario) core.Outcome {
 			}
 			texts = append(texts, txt)
 		}
-		srv.AddPlaylist("live/"+bp.Path, texts...)
+		srv.AddPlaylist("live/"+plDir(pi)+bp.Path, texts...)
 		infos = append(infos, plInfo{url: plURL, bp: &cp})
 	}
 	mv := cli.MultivariantText(b)
+	if sc.SubDirs {
+		mv = strings.Replace(mv, "\nlead.m3u8\n", "\n"+plDir(0)+"lead.m3u8\n", 1)
+		for i := range b.Renditions {
+			mv = strings.Replace(mv, fmt.Sprintf("URI=\"rend%d.m3u8\"", i), fmt.Sprintf("URI=\"%srend%d.m3u8\"", plDir(i+1), i), 1)
+		}
+	}
 	srv.AddPlaylist("live/index.m3u8", mv)
 
 	entry := base + "lead.m3u8"
@@ -406,6 +423,9 @@ func execC11(sc c11Scenario) core.Outcome {
 	}
 	if sc.Multi {
 		o.Labels = append(o.Labels, "renditions")
+	}
+	if sc.SubDirs {
+		o.Labels = append(o.Labels, "playlists-in-subdirs")
 	}
 
 	// ---- compare ----
